@@ -281,6 +281,160 @@ example :
   · exact ⟨[97, 46, 33], 0, by decide, rfl⟩
   · exact ⟨[97], 1, by decide, rfl⟩
 
+/-! ### 3b. MVCCIter: the "last" records -/
+
+/-- `MVCCIter.AddMVCC` keeps the last records right, for every key shape and every value: after
+adding version `n` (in order) the last record of every key is the value of its newest version. -/
+theorem iadd_keeps_last (db last : DB) (n : Nat) (kvs : List (Bytes × Bytes))
+    (hb : Below n db) (hn : n + 1 < 2 ^ 63) (hok : LastOK last db n) :
+    LastOK (lastAdd last kvs) (applyAdd db n kvs) (n + 1) := by
+  intro k
+  have hn' : n < 2 ^ 63 := by omega
+  have hl : get (lastAdd last kvs) k = match lastOf kvs k with | some v => some v | none => get last k :=
+    get_foldl_put kvs last k
+  have htop : get (applyAdd db n kvs) (getKey k (n + 1)) = none := by
+    rw [get_applyAdd_other db n (n + 1) kvs k hn' hn (by omega)]
+    exact get_none_of_below db n (n + 1) k hb hn (by omega)
+  have hat : get (applyAdd db n kvs) (getKey k n) = match lastOf kvs k with | some v => some v | none => none := by
+    rw [get_applyAdd_same, get_none_of_below db n n k hb hn' (Nat.le_refl _)]
+    cases lastOf kvs k <;> rfl
+  have hdbn : get db (getKey k n) = none := get_none_of_below db n n k hb hn' (Nat.le_refl _)
+  rw [hl]
+  simp only [specRead, htop]
+  cases n with
+  | zero =>
+    simp only [specRead, hat]
+    cases hlo : lastOf kvs k with
+    | some v => rfl
+    | none => simp only; rw [hok k]; simp only [specRead]; exact hdbn
+  | succ m =>
+    simp only [specRead, hat]
+    cases hlo : lastOf kvs k with
+    | some v => rfl
+    | none =>
+      simp only
+      rw [hok k]
+      simp only [specRead, hdbn]
+      exact (specRead_applyAdd_older db (m + 1) kvs k hn' m (by omega)).symm
+
+/-- FULL statement for the removal: `MVCCIter.DelMVCC` of the version just added succeeds and
+leaves the last records right for the restored data region. -/
+def idel_restores_last_full : Prop :=
+  ∀ (K : List Bytes) (db last1 : DB) (n : Nat) (kvs : List (Bytes × Bytes)),
+    WF K db → Below n db → n + 1 < 2 ^ 63 → (∀ kv ∈ kvs, kv.1 ∈ K) →
+    LastOK last1 (applyAdd db n kvs) (n + 1) →
+    ∃ last2, iterDelLast (applyAdd db n kvs) n (kvs.map (·.1)) last1 = .ok last2 ∧ LastOK last2 db n
+
+/-- PARTIAL (added hypotheses: the removed version is not version 0; `SepFree K`; no empty values —
+the two hypotheses under which the reads `GetV(key, n-1)` the removal makes are right). -/
+theorem idel_restores_last_partial (K : List Bytes) (db last1 : DB) (n : Nat)
+    (kvs : List (Bytes × Bytes)) (hwf : WF K db) (hb : Below n db) (hn : n + 1 < 2 ^ 63)
+    (hk : ∀ kv ∈ kvs, kv.1 ∈ K) (hok : LastOK last1 (applyAdd db n kvs) (n + 1))
+    (hn0 : n ≠ 0) (hsep : SepFree K) (hne : NoEmpty db) (hv : ∀ kv ∈ kvs, kv.2 ≠ []) :
+    ∃ last2, iterDelLast (applyAdd db n kvs) n (kvs.map (·.1)) last1 = .ok last2 ∧ LastOK last2 db n := by
+  have hn' : n < 2 ^ 63 := by omega
+  obtain ⟨m, hm⟩ : ∃ m, n = m + 1 := ⟨n - 1, by omega⟩
+  have hadd := applyAdd_wf K db n kvs hwf hb hn' hk
+  have hne1 : NoEmpty (applyAdd db n kvs) := hadd.2.2 hne hv
+  -- every read of the loop is right
+  have hread : ∀ k ∈ kvs.map (·.1), getV (applyAdd db n kvs) k (n - 1) =
+      match specRead db k (n - 1) with | some v => .val v | none => .notfound := by
+    intro k hkm
+    obtain ⟨kv, hkv, hkk⟩ := List.mem_map.1 hkm
+    have hkK : k ∈ K := by rw [← hkk]; exact hk kv hkv
+    rw [getV_correct_partial K _ k (n - 1) hadd.1 hkK (by omega) hsep hne1]
+    unfold specResult
+    rw [specRead_applyAdd_older db n kvs k hn' (n - 1) (by omega)]
+    cases hs : specRead db k (n - 1) with
+    | none => rfl
+    | some v =>
+      have hvne : v ≠ [] := by
+        obtain ⟨i, _, hget, _⟩ := (specRead_spec db k (n - 1)).1 v hs
+        exact hne _ ((get_eq_some_iff db hwf.1 _ _).1 hget)
+      cases v with
+      | nil => exact absurd rfl hvne
+      | cons _ _ => rfl
+  obtain ⟨last2, h1, h2⟩ := iterDelLast_spec (applyAdd db n kvs) n hn0 (fun k => specRead db k (n - 1))
+    (kvs.map (·.1)) last1 hread
+  refine ⟨last2, h1, ?_⟩
+  intro k
+  have hdbn : get db (getKey k n) = none := get_none_of_below db n n k hb hn' (Nat.le_refl _)
+  have hsn : specRead db k n = specRead db k (n - 1) := by
+    subst hm
+    simp only [specRead, hdbn, Nat.add_sub_cancel]
+  rw [h2 k, hsn]
+  by_cases hkm : k ∈ kvs.map (·.1)
+  · simp [hkm]
+  · simp only [hkm, if_false]
+    rw [hok k]
+    have hlo : lastOf kvs k = none := (lastOf_none_iff kvs k).2 hkm
+    have htop : get (applyAdd db n kvs) (getKey k (n + 1)) = none := by
+      rw [get_applyAdd_other db n (n + 1) kvs k hn' hn (by omega)]
+      exact get_none_of_below db n (n + 1) k hb hn (by omega)
+    have hat : get (applyAdd db n kvs) (getKey k n) = none := by
+      rw [get_applyAdd_same, hlo]; exact hdbn
+    subst hm
+    simp only [specRead, htop, hat, Nat.add_sub_cancel]
+    exact specRead_applyAdd_older db (m + 1) kvs k hn' m (by omega)
+
+theorem lastOK_empty : LastOK [] [] 0 := by
+  intro k; rfl
+
+/-- REFUTED (S-C09d): removing version 0 leaves the last records of its keys (the loop is skipped
+for `version = 0`).  corpus/C09/s_c09d.ops. -/
+theorem idel_restores_last_full_false_version0 : ¬ idel_restores_last_full := by
+  intro h
+  have hl := iadd_keeps_last [] [] 0 [([97], [120])] (fun e he => by cases he) (by decide) lastOK_empty
+  obtain ⟨last2, h1, h2⟩ := h [[97]] [] (lastAdd [] [([97], [120])]) 0 [([97], [120])]
+    ⟨by decide, fun e he => by cases he⟩ (fun e he => by cases he) (by decide)
+    (by intro kv hkv; simp only [List.mem_singleton] at hkv; subst hkv; simp) hl
+  have hcomp : iterDelLast (applyAdd [] 0 [([97], [120])]) 0 ([([97], [120])].map (·.1))
+      (lastAdd [] [([97], [120])]) = .ok [([97], [120])] := by decide
+  rw [hcomp] at h1
+  have hl2 : last2 = [([97], [120])] := by
+    cases h1; rfl
+  have := h2 [97]
+  rw [hl2] at this
+  revert this
+  decide
+
+/-- REFUTED (S-C09a through the removal): with key "a.!" stored at version 0, adding and removing
+version 1 = {a} restores the last record of "a" from the record of "a.!".
+corpus/C09/s_c09a_iter.ops. -/
+theorem idel_restores_last_full_false_foreign : ¬ idel_restores_last_full := by
+  intro h
+  have hl0 := iadd_keeps_last [] [] 0 [([97, 46, 33], [120])] (fun e he => by cases he) (by decide) lastOK_empty
+  have hb1 : Below 1 (applyAdd [] 0 [([97, 46, 33], [120])]) :=
+    (applyAdd_wf [[97], [97, 46, 33]] [] 0 [([97, 46, 33], [120])] ⟨by decide, fun e he => by cases he⟩
+      (fun e he => by cases he) (by decide)
+      (by intro kv hkv; simp only [List.mem_singleton] at hkv; subst hkv; simp)).2.1
+  have hwf1 : WF [[97], [97, 46, 33]] (applyAdd [] 0 [([97, 46, 33], [120])]) :=
+    (applyAdd_wf [[97], [97, 46, 33]] [] 0 [([97, 46, 33], [120])] ⟨by decide, fun e he => by cases he⟩
+      (fun e he => by cases he) (by decide)
+      (by intro kv hkv; simp only [List.mem_singleton] at hkv; subst hkv; simp)).1
+  have hl1 := iadd_keeps_last _ _ 1 [([97], [121])] hb1 (by decide) hl0
+  obtain ⟨last2, h1, h2⟩ := h [[97], [97, 46, 33]] _ _ 1 [([97], [121])] hwf1 hb1 (by decide)
+    (by intro kv hkv; simp only [List.mem_singleton] at hkv; subst hkv; simp) hl1
+  have hcomp : iterDelLast (applyAdd (applyAdd [] 0 [([97, 46, 33], [120])]) 1 [([97], [121])]) 1
+      ([([97], [121])].map (·.1)) (lastAdd (lastAdd [] [([97, 46, 33], [120])]) [([97], [121])])
+      = .ok [([97], [120]), ([97, 46, 33], [120])] := by decide
+  rw [hcomp] at h1
+  have hl2 : last2 = [([97], [120]), ([97, 46, 33], [120])] := by
+    cases h1; rfl
+  have := h2 [97]
+  rw [hl2] at this
+  revert this
+  decide
+
+/-- non-vacuity of `idel_restores_last_partial`: separator-free keys, version 1 added on top of
+version 0 and removed again; the last records go a=x,b=y → a=z,b=y → a=x,b=y. -/
+example :
+    let db : DB := applyAdd [] 0 [([97], [120]), ([98], [121])]
+    SepFree [[97], [98]] ∧ NoEmpty db ∧
+    iterDelLast (applyAdd db 1 [([97], [122])]) 1 [[97]] (lastAdd (lastAdd [] [([97], [120]), ([98], [121])]) [([97], [122])])
+      = .ok [([97], [120]), ([98], [121])] := by
+  decide
+
 /-! ### 4. garbage collection -/
 
 /-- FULL statement of the third sentence of C09: collecting versions older than `cut` never
@@ -356,6 +510,156 @@ theorem trash_keeps_newest_partial (K : List Bytes) (db : DB) (cut : Nat) (k : B
       · have := h j e'.2 hj (by rw [← hkey']; exact he'db)
         omega
 
+/-- PARTIAL, sharper: the hypothesis is only `NoForeignCover db` — no record's data key extends the
+remembered prefix (`cutVersion`, the data key without ".<version>") of a GREATER record of a
+different key.  This is exactly what the loop of `Trash` relies on, and much weaker than
+`PrefixFree`: keys such as "a"/"ab"/"a0"/"a/" (extension byte above '.') never violate it; it
+fails for "a"/"a!" (S-C09b) and for "a"/"a.<20 digits of a version of a>". -/
+theorem trash_keeps_newest_nocover (K : List Bytes) (db : DB) (cut : Nat) (k : Bytes) (i : Nat)
+    (val : Bytes) (hwf : WF K db) (hnc : NoForeignCover db) (hi : i < 2 ^ 63)
+    (hmem : (getKey k i, val) ∈ db)
+    (hkeep : cut < i ∨ ∀ j val', j < 2 ^ 63 → (getKey k j, val') ∈ db → j ≤ i) :
+    (getKey k i, val) ∈ trash db cut := by
+  unfold trash
+  apply List.mem_filter.2
+  refine ⟨hmem, ?_⟩
+  simp only [Bool.not_eq_true', List.contains_eq_mem, decide_eq_false_iff_not]
+  intro hdel
+  unfold trashDels at hdel
+  rcases trash_fold_inv cut db.reverse sentinel [] _ hdel with h | ⟨l1, e, l2, hl, hek, ⟨v, hv, hvle⟩, hpre⟩
+  · cases h
+  · rw [getVersion_getKey k i hi] at hv
+    simp only [Option.some.injEq] at hv
+    subst hv
+    have hicut : i ≤ cut := by simpa using hvle
+    rcases hpre with h | h | ⟨e', he', p, hp1, hp2⟩
+    · rw [sentinel_not_prefix] at h; cases h
+    · rw [sentinel_not_prefix] at h; cases h
+    · have hdb : db = l2.reverse ++ e :: l1.reverse := by
+        have := congrArg List.reverse hl
+        simpa using this
+      have he'db : e' ∈ db := by rw [hdb]; simp [he']
+      have hedb : e ∈ db := by rw [hdb]; simp
+      have hlt : blt e.1 e'.1 = true := by
+        have hs := hwf.1
+        rw [hdb] at hs
+        have h2 := (List.pairwise_append.1 hs).2.1
+        exact (List.pairwise_cons.1 h2).1 e' (by simp [he'])
+      -- the covering record belongs to the same key
+      have hc := hnc e' he'db e hedb hlt
+      simp only [coverOK, hp1, hek, hp2, Bool.not_true, Bool.false_or, beq_iff_eq] at hc
+      obtain ⟨k', hk', j, hj, hkey'⟩ := hwf.2 e' he'db
+      rw [hkey', cutVersion_getKey] at hp1
+      rw [cutVersion_getKey] at hc
+      have hkk : k' = k := by
+        have h1 : dataPrefix ++ k' = dataPrefix ++ k := by
+          have a := Option.some.inj hp1
+          have b := Option.some.inj hc
+          rw [a, b]
+        exact List.append_cancel_left h1
+      subst hkk
+      rw [hek, hkey'] at hlt
+      have hji : i < j := by
+        have : ble (getKey k' j) (getKey k' i) = false := by simpa [blt] using hlt
+        have h3 := (ble_getKey k' j i hj hi)
+        by_cases hle : j ≤ i
+        · rw [h3.2 hle] at this; cases this
+        · omega
+      rcases hkeep with h | h
+      · omega
+      · have := h j e'.2 hj (by rw [← hkey']; exact he'db)
+        omega
+
+/-- the condition is also necessary at the top of the store: if the remembered prefix of the
+GREATEST record `x` is a prefix of the data key of a record `e`, then `Trash(cut)` treats `e` as an
+older version of `x`'s key and removes it whenever its version is at most the cut — whatever key
+`e` belongs to, newest version or not.  (S-C09b is the instance x = ("a", v), e = ("a!", v').) -/
+theorem trash_collects_covered_by_top (K : List Bytes) (front : DB) (x e : Bytes × Bytes) (cut : Nat)
+    (p : Bytes) (v : Int) (hwf : WF K (front ++ [x])) (he : e ∈ front)
+    (hp : cutVersion x.1 = some p) (hcov : p.isPrefixOf e.1 = true)
+    (hv : getVersion e.1 = some v) (hle : v ≤ Int.ofNat cut) :
+    e ∉ trash (front ++ [x]) cut := by
+  intro hmem
+  have hdel : e.1 ∈ trashDels (front ++ [x]) cut := by
+    unfold trashDels
+    rw [List.reverse_append, List.reverse_singleton, List.singleton_append, List.foldl_cons]
+    -- first step: x opens a new prefix (the sentinel is no prefix of a data key)
+    obtain ⟨kx, _, jx, _, hxk⟩ := hwf.2 x (by simp)
+    have hs : sentinel.isPrefixOf x.1 = false := by rw [hxk]; exact sentinel_not_prefix kx jx
+    have hstep : trashStep cut (sentinel, []) x = (p, []) := by
+      unfold trashStep
+      simp [hs, hp]
+    rw [hstep]
+    -- split the remaining records at e
+    obtain ⟨l1, l2, hsplit⟩ := List.append_of_mem (List.mem_reverse.2 he)
+    rw [hsplit, List.foldl_append, List.foldl_cons]
+    have hsorted := hwf.1
+    have hfront : front = l2.reverse ++ e :: l1.reverse := by
+      have := congrArg List.reverse hsplit
+      simpa using this
+    -- every record above e (and below x) extends p
+    have hall : ∀ a ∈ l1, p.isPrefixOf a.1 = true := by
+      intro a ha
+      apply List.isPrefixOf_iff_prefix.2
+      have hpx : p <+: x.1 := by
+        rw [hxk, cutVersion_getKey] at hp
+        rw [← Option.some.inj hp, hxk, getKey]
+        exact ⟨[dot] ++ pad20 jx, by simp⟩
+      have hs2 : Sorted (l2.reverse ++ e :: l1.reverse ++ [x]) := by rw [← hfront]; exact hsorted
+      have hpw := List.pairwise_append.1 hs2
+      have hax : blt a.1 x.1 = true := hpw.2.2 a (by simp [ha]) x (by simp)
+      have hea : blt e.1 a.1 = true := by
+        have h3 := (List.pairwise_append.1 hpw.1).2.1
+        exact (List.pairwise_cons.1 h3).1 a (by simp [ha])
+      exact prefix_interval p e.1 a.1 x.1 (List.isPrefixOf_iff_prefix.1 hcov) hpx (ble_of_blt hea) (ble_of_blt hax)
+    obtain ⟨h1, _, _⟩ := trash_fold_covered cut l1 p [] hall
+    have hst : l1.foldl (trashStep cut) (p, []) = (p, (l1.foldl (trashStep cut) (p, [])).2) :=
+      Prod.ext h1 rfl
+    rw [hst]
+    apply trash_fold_mono
+    have hse : trashStep cut (p, (l1.foldl (trashStep cut) (p, [])).2) e =
+        (p, e.1 :: (l1.foldl (trashStep cut) (p, [])).2) := by
+      unfold trashStep
+      simp only [hcov, Bool.not_true, Bool.false_eq_true, if_false, hv]
+      rw [if_pos hle]
+    rw [hse]
+    exact List.mem_cons_self
+  have := (List.mem_filter.1 hmem).2
+  simp only [Bool.not_eq_true', List.contains_eq_mem, decide_eq_false_iff_not] at this
+  exact this hdel
+
+/-- `PrefixFree` key sets give `NoForeignCover` stores: the earlier partial theorem is a corollary. -/
+theorem prefixFree_noForeignCover (K : List Bytes) (db : DB) (hwf : WF K db) (hpf : PrefixFree K) :
+    NoForeignCover db := by
+  intro x hx e he _
+  obtain ⟨kx, hkx, jx, _, hx'⟩ := hwf.2 x hx
+  obtain ⟨ke, hke, je, _, he'⟩ := hwf.2 e he
+  simp only [coverOK, hx', he', cutVersion_getKey, Bool.or_eq_true, Bool.not_eq_true', beq_iff_eq]
+  by_cases hp : (dataPrefix ++ kx).isPrefixOf (getKey ke je) = true
+  · right
+    have hpk : kx <+: ke ++ ([dot] ++ pad20 je) := by
+      have h1 := List.isPrefixOf_iff_prefix.1 hp
+      have h2 : getKey ke je = dataPrefix ++ (ke ++ ([dot] ++ pad20 je)) := by simp [getKey]
+      rw [h2] at h1
+      exact (List.prefix_append_right_inj _).1 h1
+    have hkk : kx = ke := by
+      rcases List.prefix_or_prefix_of_prefix hpk (List.prefix_append ke _) with h | h
+      · exact hpf ke hke kx hkx h
+      · exact (hpf kx hkx ke hke h).symm
+    rw [hkk]
+  · left
+    cases h : (dataPrefix ++ kx).isPrefixOf (getKey ke je) with
+    | false => rfl
+    | true => exact absurd h hp
+
+/-- the condition is really weaker: keys "a", "ab", "a0", "a/" are prefix-related, yet a store over
+them has no foreign cover (and `Trash` is right on it by the theorem above). -/
+example :
+    let db : DB := [(getKey [97] 0, [1]), (getKey [97] 2, [2]), (getKey [97, 47] 1, [3]),
+                    (getKey [97, 48] 1, [4]), (getKey [97, 98] 0, [5]), (getKey [97, 98] 3, [6])]
+    Sorted db ∧ ¬ PrefixFree [[97], [97, 47], [97, 48], [97, 98]] ∧ NoForeignCover db := by
+  decide
+
 /-- S-C09b witness store: keys "a" and "a!" written once, at version 1. -/
 def witnessB : DB := [(getKey [97, 33] 1, [120]), (getKey [97] 1, [121])]
 
@@ -380,6 +684,15 @@ theorem trash_keeps_newest_full_false : ¬ trash_keeps_newest_full := by
       · have := (getKey_inj _ _ j 1 hj (by decide) h1).1
         simp at this))
   revert this
+  decide
+
+/-- the refuting store has a foreign cover (so the sharper theorem does not apply to it), and so
+has the second shape: key "a" at version 5 below key "a.00000000000000000005". -/
+example :
+    ¬ NoForeignCover witnessB ∧
+    ¬ NoForeignCover [(getKey [97] 5, [1]), (getKey ([97, 46] ++ pad20 5) 0, [2])] ∧
+    trash [(getKey [97] 5, [1]), (getKey ([97, 46] ++ pad20 5) 0, [2])] 7 =
+      [(getKey ([97, 46] ++ pad20 5) 0, [2])] := by
   decide
 
 /-- non-vacuity of the partial theorem: prefix-free keys "a", "b!" with several versions; the
